@@ -8446,6 +8446,8 @@ template <typename TN_, typename TA_, typename TH_>
 HFSM2_CONSTEXPR(14)
 void
 S_<TN_, TA_, TH_>::deepEnter(PlanControl& control) noexcept {
+	// a status reported from outside a step (root.succeed() / root.fail()) must not leak into a new activation
+	HFSM2_IF_PLANS(control._core.planData.clearTaskStatus  (STATE_ID));
 	HFSM2_IF_PLANS(control._core.planData.verifyEmptyStatus(STATE_ID));
 
 	HFSM2_LOG_STATE_METHOD(&Head::enter,
@@ -8461,6 +8463,8 @@ template <typename TN_, typename TA_, typename TH_>
 HFSM2_CONSTEXPR(14)
 void
 S_<TN_, TA_, TH_>::deepReenter(PlanControl& control) noexcept {
+	// a status reported from outside a step (root.succeed() / root.fail()) must not leak into a new activation
+	HFSM2_IF_PLANS(control._core.planData.clearTaskStatus  (STATE_ID));
 	HFSM2_IF_PLANS(control._core.planData.verifyEmptyStatus(STATE_ID));
 
 	HFSM2_LOG_STATE_METHOD(&Head::reenter,
